@@ -150,6 +150,25 @@ def render_expr(steps, seed):
     return ''.join(out)
 
 
+def flip_literals(p):
+    """the same predicate with the letter case of every string literal swapped (None when nothing changes)"""
+    if not isinstance(p, list):
+        return p
+    if p and p[0] == 'str':
+        return ['str', p[1].swapcase()]
+    return [flip_literals(x) for x in p]
+
+
+def twin_texts(steps, seed):
+    """Expression texts that a sloppy compiled-expression cache key (case-folded, stripped, truncated) would confuse with
+    render_expr(steps, seed): string literals with swapped case; the text without its last character's step predicate is
+    C15's business. Evaluated (result ignored) before the expression itself, so that the evaluation under test never
+    depends on being the first user of its cache slot."""
+    flipped = [[s[0], s[1], s[2], [flip_literals(q) for q in s[3]]] for s in steps]
+    t = render_expr(flipped, seed)
+    return [t] if t != render_expr(steps, seed) else []
+
+
 # ------------------------------------------------------------------------------------------------
 # reference interpreter on the syntax tree (independent of the text and of the library)
 
@@ -1060,6 +1079,8 @@ class Check(PropCheck):
             return '(doc-mismatch)'
         text = self.text(d)
         out = []
+        for tw in twin_texts(d['steps'], d['style']) if d['recv'] else []:
+            lib_eval(B, tw, d['recv'][0], 0)
         for k, r in enumerate(d['recv']):
             res = lib_eval(B, text, r, 0)
             out.append('err' if res == 'err' else res if isinstance(res, str) else list(res))
@@ -1104,6 +1125,8 @@ class Check(PropCheck):
         text = self.text(d)
         ref = self._ref(d)
         for r in d['recv']:
+            for tw in twin_texts(d['steps'], d['style']):
+                lib_eval(B, tw, r, 0)
             kind, exp = self._ref_result(ref, d, r)
             got = [lib_eval(B, text, r, v) for v in range(N_VIA[r[0]])]
             for v, g in enumerate(got[1:], 1):
